@@ -2,8 +2,14 @@
 """Run /repo's pinned suite and compare with BASELINE.json's stable_pass list. usage: baseline.py [repo_dir]"""
 import json, subprocess, sys, os, tempfile, xml.etree.ElementTree as ET
 repo = sys.argv[1] if len(sys.argv) > 1 else "/repo"
+if repo == "HEAD":
+    # immutable scratch worktree of /repo's HEAD, removed afterwards
+    repo = tempfile.mkdtemp(prefix="base_", dir="/tmp")
+    subprocess.run(["git", "-C", "/repo", "worktree", "add", "-q", "--detach", "--force", repo, "HEAD"], check=True)
+    import atexit
+    atexit.register(lambda: subprocess.run(["git", "-C", "/repo", "worktree", "remove", "--force", repo]))
 out = tempfile.mktemp(suffix=".xml", dir="/tmp")
-env = dict(os.environ); env.pop("ABTEM_VERIF", None)
+env = dict(os.environ); env.pop("ABTEM_VERIF", None); env["PYTHONPATH"] = repo
 p = subprocess.run(["/venv/bin/python", "-m", "pytest", "-q", "-p", "no:cacheprovider", "--timeout=900", "-x" if "-x" in sys.argv else "-q",
                     "--continue-on-collection-errors", f"--junitxml={out}", "-n", "8"] if False else
                    ["/venv/bin/python", "-m", "pytest", "-q", "-p", "no:cacheprovider", "--timeout=900",
